@@ -14,6 +14,8 @@ pub mod world;
 pub mod node;
 pub mod snap;
 pub mod tower;
+pub mod remote;
+pub mod e3;
 pub mod pure_c07f;
 pub mod pure_c17;
 pub mod pure_c18;
